@@ -1037,6 +1037,12 @@ func (vc *VC) instr(st *State, in ssa.Instruction, guard string) {
 		t := vc.makeIface(v)
 		t.T = x.Type()
 		vc.define(x, t)
+		// the type checker guarantees that the dynamic type implements the target interface
+		if it, ok := types.Unalias(x.Type()).Underlying().(*types.Interface); ok && it.NumMethods() > 0 {
+			f := "implements_" + mangle(shortTypeName(x.Type()))
+			vc.declareFun(f, []string{"Int"}, "Bool")
+			vc.assume(sx(f, sx("if_tag", vc.vals[x].S)))
+		}
 	case *ssa.TypeAssert:
 		vc.typeAssert(st, x, guard)
 	case *ssa.MakeClosure:
@@ -1327,7 +1333,7 @@ func (vc *VC) convert(st *State, x *ssa.Convert) {
 		if tb.Kind() == types.Float32 {
 			f = "f64_to_f32"
 		}
-		vc.declareFun(f, []string{"Int"}, "Int")
+		vc.P.prelude.use(vc, f)
 		n := vc.fresh("u", "Int")
 		vc.assume(sx("=", n, sx(f, a.S)))
 		vc.assume(vc.ss().typeInv(x.Type(), n, 0))
